@@ -1,0 +1,46 @@
+//go:build verif
+// +build verif
+
+package anndb
+
+import (
+	"net"
+
+	"github.com/marekgalovic/anndb/cluster"
+	"github.com/marekgalovic/anndb/storage"
+	"github.com/marekgalovic/anndb/storage/raft"
+
+	badger "github.com/dgraph-io/badger/v2"
+	"google.golang.org/grpc"
+)
+
+// VerifGrpcServerOptions, when set by the verification harness, supplies extra
+// gRPC server options (interceptors) for a server being set up.
+var VerifGrpcServerOptions func(config *Config) []grpc.ServerOption
+
+func verifGrpcServerOptions(server *Server) []grpc.ServerOption {
+	if f := VerifGrpcServerOptions; f != nil {
+		return f(server.config)
+	}
+	return nil
+}
+
+// VerifInternals exposes the server's components to the verification harness.
+type VerifInternals struct {
+	DB             *badger.DB
+	ClusterConn    *cluster.Conn
+	Allocator      *storage.Allocator
+	ZeroGroup      *raft.RaftGroup
+	DatasetManager *storage.DatasetManager
+	NodesManager   *raft.NodesManager
+	GrpcServer     *grpc.Server
+	Listener       net.Listener
+}
+
+func (this *Server) VerifInternals() *VerifInternals {
+	return &VerifInternals{
+		DB: this.db, ClusterConn: this.clusterConn, Allocator: this.allocator, ZeroGroup: this.zeroGroup,
+		DatasetManager: this.datasetManager, NodesManager: this.nodesManager,
+		GrpcServer: this.grpcServer, Listener: this.listener,
+	}
+}
